@@ -223,6 +223,13 @@ def make_oauth2():
     over.pop("client_4")
     for c in over.values():
         c.pop("userinfo", None)
+    # a client with its own token-exchange policy block (differs from the provider-wide one)
+    over["client_3"]["token_exchange"] = {
+        "subject_token_types_supported": ["urn:ietf:params:oauth:token-type:access_token"],
+        "requested_token_types_supported": ["urn:ietf:params:oauth:token-type:access_token"],
+        "default_requested_token_type": "urn:ietf:params:oauth:token-type:access_token",
+        "policy": {"": {"function": "idpyoidc.server.oauth2.token_helper.token_exchange.validate_token_exchange_policy",
+                        "kwargs": {"scope": ["openid"]}}}}
     return srv.make_server(clients=CLIENTS[:3], client_over=over, authz=copy.deepcopy(srv_c13.AUTHZ), endpoints=eps, oidc=False)
 
 
@@ -358,9 +365,9 @@ def next_op(rng, P, oidc):
         return ("par", rng.choice(clients[:3:2]), rng.choice(SCOPES[:3]))
     if r < 0.93 and P.par:
         return ("authz_par", rng.randrange(len(P.par)), rng.choice(USERS), rng.choice(clients[:3:2]))
-    if r < 0.96:
+    if r < 0.95:
         return ("discovery",) if oidc else ("response", "token")
-    if r < 0.98:
+    if r < 0.96:
         return ("response", rng.choice(["token", "authorization", "introspection"]))
     if not oidc:
         return ("exchange", pick("access_token"), rng.choice(clients), rng.choice([None, "access_token", "refresh_token"]))
